@@ -199,6 +199,7 @@ enum Caps : unsigned
 enum Guards : unsigned
 {
     G_NONE = 0,
+    G_MOVEASSIGN_UNITS = 1,  // KF-1: unequal-allocator move assignment into a smaller target over-allocates (bytes taken for units)
 };
 
 ConfigEntry& the_config();  // defined by the generated configuration TU
